@@ -110,6 +110,7 @@ def run(w: World, rep: Report):
     ok = 'len(b1)==len(b2)' in txt and "int.from_bytes(xor(b1,b2),'little')==0" in txt and ' or ' not in ast.unparse(bas.node.body[-1])
     rep.check('C04.R1b', 'functions.bytes_are_same|length-and-xor', ok, line=bas.node.lineno, file=REL,
               why='' if ok else 'bytes_are_same no longer requires equal length and an all-zero xor')
+    _no_memo_in_tree_classes(w, rep)
     # a proof that validated once must validate again: the VM side keeps no state between runs
     from .report import depend
     depend(rep, w, 'rules_c19', ('C19.R2',), 'C04.TD19',
@@ -202,3 +203,53 @@ def _pack_unpack(w: World, rep: Report):
             why = '' if ok else f'pack writes field groups derived from {[sorted(x) for x in sides]}; expected left then right'
     rep.check('C04.R3', 'tools.ScriptNode.pack|left-then-right', ok, line=pk.node.lineno, file='tapescript/tools.py',
               why=why)
+
+
+def _no_memo_in_tree_classes(w: World, rep: Report):
+    """Script / ScriptLeaf / ScriptNode objects are mutable and get re-parented (`ScriptNode(x, old_root)`, the
+    prioritized builder): what they compute - commitment, root, locking and unlocking scripts - must be
+    computed from the current fields on every call.  A method that stores a result on `self` outside the
+    declared fields is a memo that goes stale when the tree changes."""
+    rep.rule('C04.R4', 'tree classes keep no derived state: outside __init__ no method stores to an attribute of self '
+             'other than a declared structural field', floor=3)
+    tools = w.repo.module('tools')
+    n = 0
+    for cname, cd in tools.classes.items():
+        meths = [m for m in cd.body if isinstance(m, ast.FunctionDef)]
+        names = {m.name for m in meths}
+        if not (names & {'commitment', 'unlocking_script', 'locking_script', 'root'}):
+            continue
+        declared = {st.target.id for st in cd.body if isinstance(st, ast.AnnAssign) and isinstance(st.target, ast.Name)}
+        for m in meths:
+            if m.name == '__init__':
+                for x in ast.walk(m):
+                    if isinstance(x, ast.Attribute) and isinstance(x.ctx, ast.Store) and isinstance(x.value, ast.Name) \
+                            and x.value.id == 'self':
+                        declared.add(x.attr)
+        n += 1
+        bad = []
+        for m in meths:
+            if m.name in ('__init__', '__post_init__'):
+                continue
+            me = m.args.args[0].arg if m.args.args else 'self'
+            for x in ast.walk(m):
+                if isinstance(x, ast.Attribute) and isinstance(x.ctx, (ast.Store, ast.Del)) and \
+                        isinstance(x.value, ast.Name) and x.value.id == me and x.attr not in declared:
+                    bad.append((m.name, x.attr, x.lineno))
+                # a *computed* value stored on self (declared or not) is derived state as well
+                if isinstance(x, ast.Assign) and any(isinstance(t, ast.Attribute) and isinstance(t.value, ast.Name) and
+                                                     t.value.id == me for t in x.targets) and \
+                        any(isinstance(c, ast.Call) for c in ast.walk(x.value)):
+                    t0 = [t for t in x.targets if isinstance(t, ast.Attribute)][0]
+                    if (m.name, t0.attr, x.lineno) not in bad:
+                        bad.append((m.name, t0.attr, x.lineno))
+                if isinstance(x, ast.Call) and isinstance(x.func, ast.Name) and x.func.id == 'setattr' and x.args and \
+                        isinstance(x.args[0], ast.Name) and x.args[0].id == me:
+                    bad.append((m.name, 'setattr', x.lineno))
+        rep.check('C04.R4', f'tools.{cname}|no-derived-state', not bad, line=bad[0][2] if bad else cd.lineno,
+                  file='tapescript/tools.py',
+                  why='' if not bad else f'{cname}.{bad[0][0]} stores `self.{bad[0][1]}`: a remembered result is not '
+                  f'invalidated when the node is attached under a new parent or its script changes - proofs generated '
+                  f'afterwards stop at the old root / commit to the old script')
+    if n == 0:
+        raise AnalysisError('no tree class (commitment / unlocking_script / root) found in tools.py')
